@@ -77,6 +77,28 @@ def build (pkgs : List Str) : Option Inferred :=
   | none => none
   | some i => if i.version = [] ∧ pkgs.eraseDups.length > 1 then none else some i
 
+/-! ### CLI overrides of the inferred naming (`opts.namespace`, `opts.name`) -/
+
+/-- `".".join(values)` -/
+def joinDots : List Str → Str
+  | [] => []
+  | [a] => a
+  | a :: b :: r => a ++ '.' :: joinDots (b :: r)
+
+/-- the `opts.namespace` override: `".".join(opts.namespace).split(".")` — the values of the REPEATABLE key
+`python-gapic-namespace`, each of which may itself be in dot notation.  Segments as `_get_filename` uses them
+(case aside); unlike the inferred namespace, empty components are not dropped. -/
+def nsOverride (vals : List Str) : List Str := splitOn '.' (joinDots vals)
+
+/-- the namespace path segments of `Naming.build(..., opts)`: `if opts.namespace:` (a non-empty tuple) replaces
+the inferred namespace -/
+def nsWith (i : Inferred) (vals : List Str) : List Str := if vals.isEmpty then nsSegments i else nsOverride vals
+
+/-- the text of the `opts.name` override before `module_name` sanitises it:
+`" ".join(i.capitalize() for i in opts.name.replace("_", " ").split(" "))`, case aside (split/join on the same
+separator is the identity) -/
+def nameOverrideText (v : Str) : Str := v.map (fun c => if c = '_' then ' ' else c)
+
 /-! ### Options -/
 
 def isSpaceChar (c : Char) : Bool := inRanges Pinned.classTables.space c
